@@ -217,6 +217,13 @@ var downModes = []string{"PASSIVE", "FULL", "RESTART", "TRUNCATE"}
 func genDownSteps(r *Rng, cfg *Config, allowReplace bool) []Step {
 	n := r.Pick([]int{2, 3, 3, 2, 2, 1, 1, 1, 1}) // 0..8
 	var out []Step
+	if r.Chance(0.12) {
+		// the application commits, closes its last connection (SQLite checkpoints
+		// and deletes the WAL), comes back and writes a WAL shorter than the old one
+		t := genTxn(r, cfg)
+		t.Rollback = false
+		out = append(out, t, Step{K: "conn_cycle"}, Step{K: "txn", Stmts: []Stmt{{K: "upd", T: 0, Key: r.Intn(40), N: 1, Sz: 10, Seed: r.Uint64() >> 1}}})
+	}
 	for i := 0; i < n; i++ {
 		switch r.Pick([]int{40, 22, 6, 4, 3, 3, 2, 2, 2}) {
 		case 0:
@@ -283,6 +290,15 @@ func genC04(r *Rng, tier string, idx int) *Program {
 	for b := 0; b < blocks; b++ {
 		if r.Chance(0.3) {
 			p.Ops = append(p.Ops, appOp(Step{K: "save_copy"}))
+		}
+		if r.Chance(0.5) {
+			// commits litestream has not copied yet when it is stopped (its final sync
+			// in Close copies them - or a kill leaves them)
+			for k := r.Range(1, 2); k > 0; k-- {
+				t := genTxn(r, &p.Cfg)
+				t.Rollback = false
+				p.Ops = append(p.Ops, appOp(t))
+			}
 		}
 		p.Ops = append(p.Ops, genDisturbance(r, &p.Cfg, wReset))
 		m := r.Range(0, 6)
